@@ -33,14 +33,14 @@ def target (e : Engine) : Payload → Option String
   | .get u .. => uidOr u e.placeholder
   | .getAttributes u _ => uidOr u e.placeholder
   | .getAttributeList u => uidOr u e.placeholder
-  | .activate u => uidOr u e.placeholder
-  | .revoke u _ => uidOr u e.placeholder
-  | .destroy u => uidOr u e.placeholder
+  | .activate u => uidOrObj u e.placeholder
+  | .revoke u _ => uidOrObj u e.placeholder
+  | .destroy u => uidOrObj u e.placeholder
   | .encrypt u _ => uidOr u e.placeholder
   | .decrypt u _ => uidOr u e.placeholder
   | .sign u _ => uidOr u e.placeholder
   | .signatureVerify u _ => uidOr u e.placeholder
-  | .mac u _ _ => uidOr u e.placeholder
+  | .mac u _ _ => uidOrObj u e.placeholder
   | .setAttribute u _ => uidOr u e.placeholder
   | .modifyAttribute u .. => uidOr u e.placeholder
   | .deleteAttribute u .. => uidOr u e.placeholder
